@@ -134,6 +134,52 @@ def recipes():
     return R
 
 
+def random_composition(rng, depth=3):
+    """random nesting of the composite constructors over tensor->tensor stochastic leaves (same-size outputs)"""
+    import kappadata.transforms as T
+    from kappadata.transforms.kd_transform_choice import KDTransformChoice
+    leaves = [
+        ("flip", lambda: T.KDRandomHorizontalFlip(p=0.5)),
+        ("noise", lambda: T.KDAdditiveGaussianNoise(std=0.1)),
+        ("rnd-noise", lambda: T.KDRandomAdditiveGaussianNoise(std=0.1, p=0.6)),
+        ("threshold", lambda: T.KDRandomThreshold(threshold=0.4, threshold_std=0.2, p=0.6)),
+        ("jitter", lambda: T.KDColorJitter(0.4, 0.4, 0.2, 0.1)),
+        ("rnd-jitter", lambda: T.KDRandomColorJitter(p=0.7, brightness=0.4, contrast=0.4, saturation=0.2, hue=0.1)),
+        ("crop16", lambda: T.KDRandomCrop(size=16, padding=2)),
+        ("blur", lambda: T.KDRandomGaussianBlurTV(kernel_size=3, sigma=(0.1, 2.0), p=0.6)),
+        ("erase", lambda: T.KDRandomErasing(p=0.8, mode="pixelwise", max_count=3)),
+    ]
+
+    def go(d):
+        if d == 0 or rng.random() < 0.3:
+            name, th = rng.choice(leaves)
+            return name, th()
+        kind = rng.choice(["compose", "apply", "patchwise", "scheduled", "choice"])
+        if kind == "compose":
+            kids = [go(d - 1) for _ in range(rng.randint(1, 3))]
+            return "compose[" + ",".join(k[0] for k in kids) + "]", T.KDComposeTransform([k[1] for k in kids])
+        if kind == "apply":
+            n, t = go(d - 1)
+            return f"apply({n})", T.KDRandomApply(transform=t, p=0.7)
+        if kind == "patchwise":
+            n, t = go(d - 1)
+            return f"patchwise({n})", T.PatchwiseTransform(patch_size=16, transform=t)
+        if kind == "scheduled":
+            n, t = go(d - 1)
+            return f"scheduled({n})", T.KDScheduledTransform(transform=t)
+        kids = [go(d - 1) for _ in range(2)]
+        return "choice[" + ",".join(k[0] for k in kids) + "]", KDTransformChoice(transforms=[k[1] for k in kids])
+
+    return go(depth)
+
+
+def composition_oracle(rng_seed, depth, seed):
+    """behavioural oracle on one random composition (rebuilt identically from rng_seed for both instances)"""
+    name = random_composition(pyrandom.Random(rng_seed), depth)[0]
+    return behav_oracle(f"composition:{name}", f"rs={rng_seed},d={depth}", lambda: random_composition(pyrandom.Random(rng_seed), depth)[1],
+                        "tensor", seed)
+
+
 def collator_recipes():
     import kappadata.collators as C
     R = {}
@@ -417,6 +463,17 @@ class C07(RngFlowCheck):
                     f = behav_oracle(name, label, thunk, kind, sd)
                     if f is not None and not any(g.key == f.key for g in res.failures):
                         res.failures.append(f)
+        # random nestings of the composites (compose / random-apply / patchwise / scheduled / choice) over stochastic leaves
+        ncomp = 25 if self.tier == "quick" else 300
+        for k in range(ncomp):
+            rs = self.rng.randrange(10 ** 9)
+            res.cases += 1
+            res.bump("behavioural-composition")
+            f = composition_oracle(rs, 1 + k % 4, seeds[0])
+            if f is not None:
+                f.input = {"composition_rng_seed": rs, "depth": 1 + k % 4, "seed": seeds[0], "what": f.input}
+                if not any(g.key == f.key for g in res.failures):
+                    res.failures.append(f)
         res.histogram["behavioural_s"] = round(time.time() - t0, 1)
         res.histogram["classes_with_recipe"] = len(R)
         res.observations.append({"table_classes_with_cells_or_slots_but_no_recipe": uncovered})
@@ -442,6 +499,16 @@ class C07(RngFlowCheck):
                         out.append(f)
                         break
         if not out:
+            rng = pyrandom.Random(self.seed + 17)
+            k = 0
+            while time.time() - t0 < budget_s * 0.6 and not out:
+                rs = rng.randrange(10 ** 9)
+                f = composition_oracle(rs, 1 + k % 4, 5)
+                k += 1
+                if f:
+                    f.input = {"composition_rng_seed": rs, "depth": 1 + (k - 1) % 4, "seed": 5, "what": f.input}
+                    out.append(f)
+        if not out:
             for name, lst in sorted(R.items()):
                 for label, thunk, kind in lst:
                     if time.time() - t0 > budget_s:
@@ -452,6 +519,8 @@ class C07(RngFlowCheck):
         return out
 
     def replay_input(self, inp):
+        if "composition_rng_seed" in inp:
+            return composition_oracle(inp["composition_rng_seed"], inp["depth"], inp["seed"])
         R = recipes()
         for label, thunk, kind in R.get(inp["class"], []):
             if label == inp.get("recipe"):
